@@ -5,6 +5,7 @@ import (
 	"time"
 
 	"github.com/influxdata/influxql"
+	"github.com/influxdata/kapacitor/pipeline"
 	"github.com/influxdata/kapacitor/tick/ast"
 	"github.com/pkg/errors"
 )
@@ -275,10 +276,9 @@ func (q *Query) String() string {
 	return q.stmt.String()
 }
 
-type TimeDimension struct {
-	Length time.Duration
-	Offset time.Duration
-}
+// TimeDimension is the value of time(length, offset) in a groupBy property.
+// It is defined next to QueryNode so that pipeline/tick can render it.
+type TimeDimension = pipeline.TimeDimension
 
 func groupByTime(length time.Duration, offset ...time.Duration) (TimeDimension, error) {
 	var o time.Duration
